@@ -242,8 +242,13 @@ class ImplCrash(Exception):
   pass
 
 
-def worker_main(fn):
+def worker_main(fn, mem_gb=12):
   """Entry point of an impl worker: read JSON from stdin, call fn, print the tagged result."""
+  try:
+    import resource
+    resource.setrlimit(resource.RLIMIT_AS, (mem_gb << 30, mem_gb << 30))   # a runaway case must not take the machine down
+  except Exception:  # pylint: disable=broad-except
+    pass
   payload = json.loads(sys.stdin.read())
   res = fn(payload)
   sys.stdout.write('\n@@JSON ' + json.dumps(res) + '\n')
